@@ -1,7 +1,10 @@
 (* C02 — property theorems only.  Each is closed by [exact <lemma>] and followed by
    Print Assumptions; the statements are pinned here so they cannot be quietly weakened. *)
-From FB Require Import C02.Model C02.Encode C02.Theory1.
+From FB Require Import C02.Model C02.Encode C02.Theory1 C02.Theory2 C02.Theory3 C02.Theory4 C02.Theory5
+  C02.Theory6 C02.Theory7 C02.Theory8 C02.Theory9 C02.Gen.
+Local Open Scope Z_scope.
 
+(* ---------- termination of the branch-offset fixpoint ---------- *)
 (* The attempt loop of write_code needs at most (number of instructions + 1) attempts:
    every restart adds an instruction index that was not yet in the wide set. *)
 Theorem C02_write_terminates : forall b last, wc_loop (S (length b)) [] b last <> None.
@@ -12,8 +15,179 @@ Theorem C02_write_code_terminates : forall hasmax b last tb, write_code hasmax b
 Proof. exact write_code_terminates. Qed.
 Print Assumptions C02_write_code_terminates.
 
-(* a restart names an instruction inside the body that is not yet written wide *)
 Theorem C02_restart_fresh : forall W b last i,
   attempt W b last = ARestart i -> memN i W = false /\ (i < N.of_nat (length b))%N.
 Proof. exact attempt_restart. Qed.
 Print Assumptions C02_restart_fresh.
+
+(* ---------- a successful output is an admissible encoding ---------- *)
+(* For the forms [chs] the writer ends up with (chs_run: a resolved reference by its true
+   offset, an unresolved one by membership in the final wide set W) the written code array is
+   exactly the general position-dependent encoding of the body, with every label designating
+   the position the layout itself assigns to the instruction that carries it; every narrow
+   offset fits 16 bits, every wide one 32 bits, switches are well formed, 0 < length <= 65535. *)
+Theorem C02_write_is_encode : forall b last w labs W,
+  unique_labels b last ->
+  wc_loop (S (length b)) [] b last = Some (OK (w, labs, W)) ->
+  let chs := chs_run W 0%N 0 [] b in
+  let L := labpos chs 0 b last in
+  length chs = length b /\
+  encode chs L 0 b = Some w /\
+  admissible chs L 0 b = true /\
+  (forall l, lget labs l = L l) /\
+  zlen w = endpos chs 0 b /\ 0 < endpos chs 0 b <= 65535.
+Proof. exact write_is_encode. Qed.
+Print Assumptions C02_write_is_encode.
+
+(* ---------- every branch / switch arm designates the same instruction ---------- *)
+(* Decoding the written bytes with a decoder that sees only bytes, at the position of the k-th
+   instruction of the tree, yields the label-free meaning of that instruction: each target is
+   the position of the instruction carrying the target label; a far conditional decodes as the
+   inverted condition jumping over an 8-byte trampoline whose goto_w has the target. *)
+Theorem C02_targets_preserved : forall b last w labs W k lb e c q,
+  unique_labels b last -> body_ok b = true ->
+  wc_loop (S (length b)) [] b last = Some (OK (w, labs, W)) ->
+  let chs := chs_run W 0%N 0 [] b in
+  let L := labpos chs 0 b last in
+  nth_error b k = Some (lb, e) -> nth_error chs k = Some c -> nth_error (positions chs 0 b) k = Some q ->
+  exists ex, expected c L q e = Some ex /\ forall q' d, In (q', d) ex -> decode_at w q' = d.
+Proof. exact targets_preserved_nth. Qed.
+Print Assumptions C02_targets_preserved.
+
+(* the index embedding: a label position is the position of the instruction that carries the
+   label, or the end of the code for the last label *)
+Theorem C02_label_positions : forall b chs p last l t,
+  length chs = length b ->
+  labpos chs p b last l = Some t ->
+  (exists k e, nth_error b k = Some (Some l, e) /\ nth_error (positions chs p b) k = Some t)
+  \/ (last = Some l /\ t = endpos chs p b).
+Proof. exact labpos_positions. Qed.
+Print Assumptions C02_label_positions.
+
+(* exception ranges, line numbers, local-variable ranges, type-annotation targets: every pc
+   written is the position of the labelled instruction in the same layout *)
+Theorem C02_tables_resolve : forall hasmax b last tb w W rt,
+  unique_labels b last ->
+  write_code hasmax b last tb = Some (OK (w, W, rt)) ->
+  let chs := chs_run W 0%N 0 [] b in
+  let L := labpos chs 0 b last in
+  mapO (L3 L) (t_exc tb) = Some (r_exc rt) /\
+  mapO L (t_offs tb) = Some (r_offs rt) /\
+  mapO (Lrange L) (t_ranges tb) = Some (r_ranges rt).
+Proof. exact tables_resolve. Qed.
+Print Assumptions C02_tables_resolve.
+
+(* ---------- failing cleanly ---------- *)
+(* never a panic; an error only for a stated cause at the final wide set: malformed switch,
+   a referenced label on no instruction, empty code, or code larger than 65535 bytes; and a
+   success has none of these causes *)
+Theorem C02_write_fails_cleanly : forall b last,
+  unique_labels b last -> spans_ok b = true ->
+  match wc_loop (S (length b)) [] b last with
+  | Some (OK (w, labs, W)) => ~ cause W b last
+  | Some ERR => exists W, attempt W b last = AErr /\ cause W b last
+  | Some PANIC => False
+  | None => False
+  end.
+Proof. exact write_fails_cleanly. Qed.
+Print Assumptions C02_write_fails_cleanly.
+
+Theorem C02_write_code_no_panic : forall hasmax b last tb,
+  unique_labels b last -> spans_ok b = true -> ranges_ok b last tb = true ->
+  write_code hasmax b last tb <> Some PANIC.
+Proof. exact write_code_no_panic. Qed.
+Print Assumptions C02_write_code_no_panic.
+
+(* ---------- the writer's constant pool ---------- *)
+Theorem C02_pool_new : PInv pool_new.
+Proof. exact pool_new_inv. Qed.
+Print Assumptions C02_pool_new.
+
+(* put returns an index that resolves to the entry, preserves every earlier index, stays
+   within 1 .. count-1 <= 65534, and keeps the invariant *)
+Theorem C02_pool_put : forall p e p' i,
+  PInv p -> pool_put p e = Ok (p', i) ->
+  PInv p' /\ pool_resolve p' i = Some e /\
+  (forall j x, pool_resolve p j = Some x -> pool_resolve p' j = Some x) /\
+  1 <= i < p_count p' /\ p_count p' <= 65535.
+Proof. exact pool_put_spec. Qed.
+Print Assumptions C02_pool_put.
+
+(* constant_pool_count = 1 + slots, Long/Double taking two *)
+Theorem C02_pool_count : forall p, PInv p -> p_count p = 1 + total (rev (p_inner p)).
+Proof. exact pool_count. Qed.
+Print Assumptions C02_pool_count.
+
+Theorem C02_pool_no_dup : forall p i j e,
+  PInv p -> pool_resolve p i = Some e -> pool_resolve p j = Some e -> i = j.
+Proof. exact pool_no_dup. Qed.
+Print Assumptions C02_pool_no_dup.
+
+Theorem C02_pool_put_idem : forall p e p' i, PInv p -> pool_put p e = Ok (p', i) -> pool_put p' e = Ok (p', i).
+Proof. exact pool_put_idem. Qed.
+Print Assumptions C02_pool_put_idem.
+
+Theorem C02_ldc_threshold : forall idx,
+  (ldc_choose false idx = LDC idx <-> idx <= 255) /\ ldc_choose true idx = LDC2_W idx.
+Proof. exact ldc_threshold. Qed.
+Print Assumptions C02_ldc_threshold.
+
+(* ---------- length fields ---------- *)
+Theorem C02_attribute_length_exact : forall name_index body bs pre post,
+  write_attribute name_index body = Ok bs ->
+  bs = be16 name_index ++ be32 (zlen body) ++ body /\
+  u32_at (pre ++ bs ++ post) (zlen pre + 2) = zlen body /\
+  zlen bs = 6 + zlen body.
+Proof. exact attribute_length_exact. Qed.
+Print Assumptions C02_attribute_length_exact.
+
+Theorem C02_count16_exact : forall elems bs pre post,
+  write_slice16 elems = Ok bs ->
+  u16_at (pre ++ bs ++ post) (zlen pre) = zlen elems /\ bs = be16 (zlen elems) ++ concat elems.
+Proof. exact count16_exact. Qed.
+Print Assumptions C02_count16_exact.
+
+Theorem C02_code_length_exact : forall code pre post,
+  zlen code <= 65535 -> u32_at (pre ++ frame_code code ++ post) (zlen pre) = zlen code.
+Proof. exact code_length_exact. Qed.
+Print Assumptions C02_code_length_exact.
+
+(* the call sites of write_attribute_fix_length in the current source (regenerated) *)
+Theorem C02_fix_lengths_exact :
+  forallb (fun s => snd (fst s) =? sumZ (snd s)) fix_length_sites = true.
+Proof. exact fix_lengths_exact. Qed.
+Print Assumptions C02_fix_lengths_exact.
+
+(* the call sites of if_helper / goto_helper in the current source (regenerated) *)
+Theorem C02_helper_sites_ok :
+  forallb (fun p => kind_ok (KCond (fst p) (snd p))) if_sites = true /\
+  forallb (fun p => kind_ok (KJump (fst p) (snd p))) jump_sites = true /\
+  length if_sites = 16%nat /\ length jump_sites = 2%nat.
+Proof. exact helper_sites_ok. Qed.
+Print Assumptions C02_helper_sites_ok.
+
+Theorem C02_model_constants_match_source :
+  GOTO_W = src_GOTO_W /\ TABLESWITCH = src_TABLESWITCH /\ LOOKUPSWITCH = src_LOOKUPSWITCH /\
+  src_tramp_skip = 8 /\ src_LDC = 18%N /\ src_LDC_W = 19%N /\ src_LDC2_W = 20%N.
+Proof. exact model_constants_match_source. Qed.
+Print Assumptions C02_model_constants_match_source.
+
+(* ---------- stack map frames: known finding F14 ---------- *)
+Theorem C02_frames_written_partial : forall fs pos,
+  has_frames fs = false -> written_frames fs pos = tree_frames fs pos.
+Proof. exact frames_written_partial. Qed.
+Print Assumptions C02_frames_written_partial.
+
+Theorem C02_frames_written_refuted :
+  exists fs pos, has_frames fs = true /\ written_frames fs pos <> tree_frames fs pos.
+Proof. exact frames_written_refuted. Qed.
+Print Assumptions C02_frames_written_refuted.
+
+(* ---------- non-vacuity ---------- *)
+Theorem C02_examples : nonvacuous.
+Proof. exact nonvacuous_holds. Qed.
+Print Assumptions C02_examples.
+
+Theorem C02_far_conditional_widens : far_check = true.
+Proof. exact far_conditional_widens. Qed.
+Print Assumptions C02_far_conditional_widens.
